@@ -193,6 +193,12 @@ fn c02_related(r: &mut Rng, a: f64) -> f64 {
             }
         }
         6 => mk(r.coin(), (exp_of(a) + r.range(-2, 2)).clamp(-1022, 1022), mant_any(r)),
+        7 => {
+            // ratio within a few ulps of 2^k (exactly at / just outside the Sterbenz range)
+            let k = pk!(r, [-2i64, -1, -1, 1, 1, 2]);
+            let v = step(a * pow2(k), r.range(-3, 3));
+            if r.coin() { v } else { -v }
+        }
         _ => c02_f64(r),
     };
     if b.is_finite() && b.abs() < pow2(1023) {
@@ -508,6 +514,11 @@ pub fn c03_tt(c: &mut Ctx, a: W, b: W) -> f64 {
         P_DW,
         159,
     );
+    if hx(a.0) == hx(b.0) && hx(a.1) == hx(b.1) {
+        c.note("add/&x,&x", &ins, nt);
+        judge_rel(c, "add/&x,&x", "3u^2+13u^3", &ins, guard(|| w(&ta + &ta)), &sum, P_DW, 159);
+        judge_rel(c, "sub/&x,&x", "3u^2+13u^3", &ins, guard(|| w(&ta - &ta)), &dif, P_DW, 159);
+    }
     c.sample("add/TF,TF", || {
         let r = w(ta + tb);
         json!({"a": [a.0, a.1], "b": [b.0, b.1], "r": [r.0, r.1]})
@@ -809,6 +820,11 @@ pub fn c04_tt(c: &mut Ctx, a: W, b: W) -> f64 {
         5,
         106,
     );
+    if hx(a.0) == hx(b.0) && hx(a.1) == hx(b.1) {
+        // the same object on both sides of a by-reference operator
+        c.note("mul/&x,&x", &ins, nt);
+        judge_rel(c, "mul/&x,&x", "5u^2", &ins, guard(|| w(&ta * &ta)), &tv, 5, 106);
+    }
     c.sample("mul/TF,TF", || {
         let r = w(ta * tb);
         json!({"a": [a.0, a.1], "b": [b.0, b.1], "r": [r.0, r.1]})
@@ -950,6 +966,9 @@ pub fn c04(c: &mut Ctx) {
         cl_tf.offer(r, a, (f, 0.0));
         if i % 4 == 0 {
             c04_exact(c, a);
+        }
+        if i % 8 == 2 {
+            c04_tt(c, a, a);
         }
         if i % 8 == 1 {
             let nn = boundary_int(&mut c.rng);
